@@ -205,6 +205,7 @@ def write_evidence(prop, tier, seed, plan, ev, nviol, undecided, wall):
         trusted_functions=sorted(ev['trusted_fns']),
         undecided=undecided,
         functions_given_up=ev.get('gave_up', []),
+        additional_failing_harnesses=ev.get('additional_failures', []),
         explanation=plan.get('explanation', ''),
         # exploration-style keys (required for model_checking fallback): one evaluation = one obligation or one harness run
         evaluations=ev['obligations'] + len(ev['kani_runs']),
